@@ -1319,7 +1319,15 @@ def run(ck: Ck) -> None:
     built = ok_t and ck.build(['Gen/KVSer_gen.vo', 'Gen/KVLoop_gen.vo'] + (['Gen/EscTables_gen.vo', 'Text/TokGen.vo'] if ok_esc else [])
                               + ['KV/KvEnum.vo', 'KV/KvLoopEnum.vo', 'Props/C01.vo'])
     if built:
-        ck.theorems('Props/C01.v')
+        # Print Assumptions of the 37 theorems takes a single coqc process 15-20 s on a loaded machine: it runs beside the
+        # instance obligations and the sampled correspondences.  It reports into a recorder of its own, whose entries are spliced in at this position
+        # after the join, so the order of the evidence does not depend on timing.
+        import shutil
+        import threading
+        rec = Ck(ck.pid, ck.tier, ck.seed)
+        at_theorems = len(ck.obligations)
+        th = threading.Thread(target=rec.theorems, args=('Props/C01.v',))
+        th.start()
         noraw = '(fun t => forallb (fun p => match p with PRaw _ | POther => false | _ => true end) t)'
         is_push = '(fun s => match s with SOpenLast | SOpenDummy => true | _ => false end)'
         is_pop = '(fun s => match s with SPop => true | _ => false end)'
@@ -1393,6 +1401,11 @@ def run(ck: Ck) -> None:
         for jobs, fin in pending:
             fin(results[at:at + len(jobs)])
             at += len(jobs)
+        th.join()
+        ck.obligations[at_theorems:at_theorems] = rec.obligations
+        ck.axioms.update(rec.axioms)
+        ck.tie_broken.extend(rec.tie_broken)
+        shutil.rmtree(rec.scratch, ignore_errors=True)
         stage['tables+correspondences'] = round(time.time() - t_stage, 1)
         t_stage = time.time()
         corr_tokens(ck)
